@@ -116,6 +116,15 @@ theorem enum_wrap_rejected :
     (∀ fuel, 30 ≤ fuel → compile fuel [] progD7 = .err) ∧ (∀ fuel, (compile fuel [] progD7).isOk = false) :=
   rejected_of_err err_D7
 
+/-- **Boundary of the implicit values (seeded change C09-64).** An item without a value after
+`A = 2147483647` would be 2^31 and is refused; one step below, and at the lower end, the implicit
+value is the previous one plus one. -/
+theorem implicit_enum_value_past_int32_rejected :
+    compileEnum [(nm "A", some 2147483647), (nm "B", none)] = none ∧
+    compileEnum [(nm "A", some 2147483646), (nm "B", none)] = some [(nm "A", 2147483646), (nm "B", 2147483647)] ∧
+    compileEnum [(nm "A", some (-2147483648)), (nm "B", none)] = some [(nm "A", -2147483648), (nm "B", -2147483647)] := by
+  decide
+
 /-- **Integer constants are exact and in range.** Linking an integer literal at a type whose
 root is an integer type of `bits` bits succeeds only if the literal lies in that type's range,
 returns that very literal, and changes nothing else — for constants, defaults, and elements of
